@@ -522,7 +522,10 @@ fn validate_command(file: &Path, schema_path: &Path) -> Result<()> {
                     }
 
                     if invalid_strings > 0 {
-                        println!("⚠ Found {invalid_strings} invalid string references");
+                        println!("✗ Found {invalid_strings} invalid string references");
+                        anyhow::bail!(
+                            "Validation failed: {invalid_strings} invalid string reference(s)"
+                        );
                     } else {
                         println!("✓ All string references are valid");
                     }
